@@ -588,9 +588,14 @@ pub struct ComponentEnc {
     /// write the arguments as words even when they fit bytes
     pub force_words: bool,
     pub round_to_grid: bool,
+    /// raw 2.14 transform words in file order: none, [scale], [xscale, yscale] or
+    /// [xscale, scale01, scale10, yscale]
+    pub transform: Vec<i16>,
+    /// SCALED_COMPONENT_OFFSET (0x0800)
+    pub scaled_offset: bool,
 }
 
-/// glyf record of a composite glyph without transforms or instructions.
+/// glyf record of a composite glyph without instructions.
 pub fn glyf_composite(bbox: (i16, i16, i16, i16), comps: &[ComponentEnc]) -> Vec<u8> {
     let mut b = Buf::new();
     b.i16(-1).i16(bbox.0).i16(bbox.1).i16(bbox.2).i16(bbox.3);
@@ -601,6 +606,16 @@ pub fn glyf_composite(bbox: (i16, i16, i16, i16), comps: &[ComponentEnc]) -> Vec
         }
         if c.round_to_grid {
             flags |= 0x0004;
+        }
+        flags |= match c.transform.len() {
+            0 => 0,
+            1 => 0x0008,
+            2 => 0x0040,
+            4 => 0x0080,
+            n => panic!("composite transform of {} words", n),
+        };
+        if c.scaled_offset {
+            flags |= 0x0800;
         }
         let (a1, a2, xy) = match c.args {
             CompArgs::Offset(x, y) => (x as i32, y as i32, true),
@@ -619,6 +634,9 @@ pub fn glyf_composite(bbox: (i16, i16, i16, i16), comps: &[ComponentEnc]) -> Vec
             b.u16(a1 as u16).u16(a2 as u16);
         } else {
             b.u8(a1 as u8).u8(a2 as u8);
+        }
+        for w in &c.transform {
+            b.i16(*w);
         }
     }
     b.into_vec()
